@@ -1415,3 +1415,26 @@ C("_reset_internal", arg_types={**SELF, "clear_packet_queue": T.Bool}, props=("C
           Implies_(Not_(B(o.clear_packet_queue)), qlen(n.self) == qlen(o.self))), ("C11",)),
   ],
   effects=set(), modular=False)
+
+
+# the constructor establishes the invariant and the fresh state (base case of "for every history")
+from cfdppy.mib import LocalEntityCfg as _LEC, RemoteEntityCfgTable as _RCT, CheckTimerProvider as _CTP  # noqa: E402
+from cfdppy.user import CfdpUserBase as _UB  # noqa: E402
+
+C("__init__", arg_types={**SELF, "cfg": T.Obj(_LEC), "user": T.Obj(_UB), "remote_cfg_table": T.Obj(_RCT),
+                         "check_timer_provider": T.Obj(_CTP), "seq_num_provider": T.Opaque}, props=("C11", "C10"), result=None,
+  requires=[("valid_local_cfg", lambda o: And_(table_inv(o.cfg.default_fault_handlers._handler_dict.d), ubf_inv(o.cfg.local_entity_id)))],
+  modifies=["self.states", "self.cfg", "self.user", "self.remote_cfg_table", "self.seq_num_provider", "self.check_timer_provider",
+            "self._params", "self._put_req", "self._pdus_to_be_sent"],
+  ensures=[
+      Clause("C11.src.constructor_gives_idle_fresh_handler", lambda o, n, r: And_(
+          eq(n.self.states.state, IDLE), eq(n.self.states.step, STEP.IDLE), _fresh_params(n), isnone(n.self._put_req),
+          qlen(n.self) == 0, to_z3_int(n.self.states._num_packets_ready) == 0), ("C11",)),
+      Clause("C11.src.constructor_keeps_its_arguments", lambda o, n, r: (
+          n.self.cfg.oid == o.cfg.oid and n.self.user.oid == o.user.oid and n.self.remote_cfg_table.oid == o.remote_cfg_table.oid
+          and n.self.check_timer_provider.oid == o.check_timer_provider.oid), ("C11",)),
+      Clause("C11.src.constructor_state_is_not_shared", lambda o, n, r: not any(
+          isinstance(v, SObj) and (v is n.self._params or v is n.self.states or v is n.self._params.fp)
+          for v in n.interp.shared_objs.values()), ("C11",)),
+  ] + inv_clauses(("C11", "C10")),
+  effects=set(), modular=False)
